@@ -94,6 +94,7 @@ FormsOf(t, a) ==
    IN {[form |-> "indexed", path |-> ix]}
       \cup (IF pl # ix THEN {[form |-> "plain", path |-> pl],
                              [form |-> "lastidx", path |-> pl \o <<IndexS(PosIn(flat, a) - 1)>>]} ELSE {})
+      \cup (IF x.li /\ pos = 0 /\ base # pl THEN {[form |-> "list", path |-> base]} ELSE {})
       \cup (IF x.li /\ pos = 0 THEN {[form |-> "first", path |-> base \o <<PS("first", "", "", 0)>>]} ELSE {})
       \cup (IF x.li /\ pos = glen - 1 THEN {[form |-> "last", path |-> base \o <<PS("last", "", "", 0)>>]} ELSE {})
       \cup (IF x.li THEN {[form |-> "where", path |-> base \o <<w>>] : w \in WhereSteps(x)} ELSE {})
@@ -109,14 +110,14 @@ ComplexDonors(res, fld) ==
   SelectSeq(DonorAddrs(res), LAMBDA a : LET d == NodeAt(TreeOf(res), a) IN
      d.k = "complex" /\ \A i \in 1..Len(fld.alts) : fld.alts[i].pn # d.pn)
 
-FirstOr(seq, S(_)) == IF Len(seq) = 0 THEN {} ELSE {S(seq[1])}
+FirstOr(seq, mk(_)) == IF Len(seq) = 0 THEN {} ELSE {mk(seq[1])}
 
 (* [label, spec] pairs tried at a field *)
 ValuesFor(fld, donorRes, wide) ==
   LET right == IF fld.anyres THEN FirstOr(ResourceDonors(donorRes), LAMBDA a : [label |-> "right", spec |-> DonorSpec(donorRes, a)])
                ELSE UNION {FirstOr(DonorsOfType(donorRes, fld.alts[i].pn), LAMBDA a : [label |-> "right", spec |-> DonorSpec(donorRes, a)])
                            : i \in 1..Len(fld.alts)}
-      hasTy(S) == \E i \in 1..Len(fld.alts) : fld.alts[i].ty \in S
+      hasTy(tys) == \E i \in 1..Len(fld.alts) : fld.alts[i].ty \in tys
       sib == UNION {
                IF Len(fld.alts[i].codes) > 0
                THEN {[label |-> "sib", spec |-> MkStr("String", fld.alts[i].codes[Len(fld.alts[i].codes)])],
@@ -152,33 +153,42 @@ AddNames(x, donorRes, wide) ==
       cand(list) == {i \in 1..Len(fs) : /\ fs[i].n \notin present /\ fs[i].list = list /\ ~fs[i].choice /\ ~fs[i].anyres
                                         /\ fs[i].n \notin {"id", "extension", "modifierExtension"}
                                         /\ \E j \in 1..Len(fs[i].alts) : Len(DonorsOfType(donorRes, fs[i].alts[j].pn)) > 0}
-      pick(S) == IF S = {} THEN {} ELSE {fs[CHOOSE i \in S : \A j \in S : i <= j].n}
+      pick(cs) == IF cs = {} THEN {} ELSE {fs[CHOOSE i \in cs : \A j \in cs : i <= j].n}
   IN IF x.k = "prim" THEN {}
      ELSE present \cup pick(cand(FALSE)) \cup pick(cand(TRUE)) \cup (IF wide THEN {"zzz"} ELSE {})
 
-(* every operation of the model on tree t.  wide = the full cross (all      *)
-(* forms, all value classes); otherwise the core used at depth > 1.         *)
-OpsOn(t, donorRes, wide) ==
-  UNION {
-    LET x   == NodeAt(t, a)
-        fld == IF Len(a) = 0 THEN [ok |-> FALSE]
-               ELSE [ok |-> TRUE, f |-> GetField(Schema, NodeAt(t, Front(a)).pn, x.n)]
-        glen == IF Len(a) = 0 THEN 1 ELSE Len(Positions(NodeAt(t, Front(a)).ch, x.n))
-        vals == IF fld.ok THEN ValuesFor(fld.f, donorRes, wide) ELSE NoFieldValues
-        forms == IF wide THEN FormsOf(t, a)
-                 ELSE {fp \in FormsOf(t, a) : fp.form \in {"indexed", "where", "last"}}
-    IN UNION {
-         {Op("delete", fp, "", 0, NoneLV)}
-         \cup (IF wide /\ fp.form = "indexed" THEN {Op("move", fp, "", 1, NoneLV)} ELSE {})
-         \cup {Op("replace", fp, "", 0, lv) : lv \in vals}
-         \cup {Op("insert", fp, "", i, lv) : i \in (IF wide \/ fp.form = "indexed" THEN -1..(glen + 1) ELSE {0}),
-                                             lv \in (IF x.li \/ wide THEN vals ELSE {})}
-         \cup (IF fp.form \in {"indexed", "where", "first"}
-               THEN UNION {{Op("add", fp, nm, 0, lv) :
-                               lv \in (IF FieldOk(Schema, x.pn, nm) THEN ValuesFor(GetField(Schema, x.pn, nm), donorRes, wide)
-                                       ELSE NoFieldValues)}
-                           : nm \in AddNames(x, donorRes, wide)}
-               ELSE {})
-         : fp \in forms}
-    : a \in Range(AddrSeq(t))}
+(* every operation of the model on tree t.  wide = the full cross (every    *)
+(* address, all forms, all value classes); otherwise the core used beyond   *)
+(* depth WideDepth: the repeated, nested-repeated, code and choice elements *)
+(* in their indexed / filtered / whole-list forms, a value of the declared  *)
+(* type and a wrong one.                                                    *)
+CoreNames == {"name", "given", "gender", "deceased"}
+Targets(t, wide) == IF wide THEN Range(AddrSeq(t))
+                    ELSE {a \in Range(AddrSeq(t)) : Len(a) = 0 \/ NodeAt(t, a).n \in CoreNames}
+
+OpsAt(t, a, donorRes, wide) ==
+  LET x    == NodeAt(t, a)
+      fld  == IF Len(a) = 0 THEN [ok |-> FALSE]
+              ELSE [ok |-> TRUE, f |-> GetField(Schema, NodeAt(t, Front(a)).pn, x.n)]
+      glen == IF Len(a) = 0 THEN 1 ELSE Len(Positions(NodeAt(t, Front(a)).ch, x.n))
+      vals == IF fld.ok THEN ValuesFor(fld.f, donorRes, wide) ELSE NoFieldValues
+      forms == IF wide THEN FormsOf(t, a)
+               ELSE {fp \in FormsOf(t, a) : fp.form \in {"indexed", "where", "list"}}
+      listy(fp) == fp.form \in {"list", "plain"}
+      idxs(fp, lv) == IF listy(fp) /\ lv.label \in {"right", "wrong"} THEN -1..(glen + 1)
+                      ELSE IF wide THEN {0, glen} ELSE {}
+  IN UNION {
+       (IF Len(a) = 0 /\ ~wide THEN {}
+        ELSE {Op("delete", fp, "", 0, NoneLV)} \cup {Op("replace", fp, "", 0, lv) : lv \in vals})
+       \cup (IF wide /\ fp.form = "indexed" THEN {Op("move", fp, "", 1, NoneLV)} ELSE {})
+       \cup UNION {{Op("insert", fp, "", i, lv) : i \in idxs(fp, lv)} : lv \in vals}
+       \cup (IF fp.form = "indexed" \/ (wide /\ fp.form \in {"where", "first"})
+             THEN UNION {{Op("add", fp, nm, 0, lv) :
+                             lv \in (IF FieldOk(Schema, x.pn, nm) THEN ValuesFor(GetField(Schema, x.pn, nm), donorRes, wide)
+                                     ELSE NoFieldValues)}
+                         : nm \in AddNames(x, donorRes, wide)}
+             ELSE {})
+       : fp \in forms}
+
+OpsOn(t, donorRes, wide) == UNION {OpsAt(t, a, donorRes, wide) : a \in Targets(t, wide)}
 =============================================================================
